@@ -2,8 +2,7 @@
 from __future__ import annotations
 
 import hashlib
-import itertools
-from typing import Any, Dict, List, Optional, Tuple
+from typing import Any, Dict, List, Optional
 
 import numpy as np
 
@@ -304,7 +303,7 @@ def correspondence(ctx) -> C.Part:
                 d = abs(m - float(asd[k]))
                 worst = max(worst, d / tol if np.isfinite(d) else np.inf)
                 if not (d <= tol):
-                    P.disagreements.append({"op": "miso", "solver": sv, "bin": k, "model_asd": m, "impl_asd": float(asd[k]), "tol": tol,
+                    P.disagreements.append({"op": "miso", "solver": sv, "bin": k, "model_asd": float(m), "impl_asd": float(asd[k]), "tol": float(tol),
                                             "S00": float(ing.S00[k]), "cond": float(ing.cond[k]), "navg": int(ing.navg[k]),
                                             "S": ing.S[:, k], "T": ing.T[:, :, k].reshape(-1), "H": ing.H[:, k], "case": case_desc(c)})
                     break
@@ -359,7 +358,7 @@ class Checker:
         bad = g & ~(np.isfinite(asd) & (asd >= 0))
         if bad.any():
             k = int(np.where(bad)[0][0])
-            self.viol(c, "bound", sv, f"ASD[{k}] = {asd[k]!r} is not a finite non-negative number (navg={int(ing.navg[k])}, cond(T)={ing.cond[k]:.3g})", {"bin": k})
+            self.viol(c, "bound", sv, f"ASD[{k}] = {float(asd[k])!r} is not a finite non-negative number (navg={int(ing.navg[k])}, cond(T)={ing.cond[k]:.3g})", {"bin": k})
             return None
         return asd.astype(float)
 
@@ -384,7 +383,7 @@ class Checker:
         badm = good & ~(d <= tol)
         if badm.any():
             k = int(np.argmax(np.where(badm, r, 0)))
-            self.viol(c, sub, sv, f"bin {k}: residual power {a[k]!r} but {what_b} {b[k]!r} (|diff| {d[k]:.3g} > tol {tol[k]:.3g}; Gyy={c['_S00'][k]:.6g})",
+            self.viol(c, sub, sv, f"bin {k}: residual power {float(a[k])!r} but {what_b} {float(b[k])!r} (|diff| {d[k]:.3g} > tol {tol[k]:.3g}; Gyy={c['_S00'][k]:.6g})",
                       {"bin": k, "observed": float(a[k]), "expected": float(b[k]), "tol": float(tol[k])})
         return True
 
@@ -418,7 +417,7 @@ class Checker:
             badm = g & ~(over <= ETA * ing.B)
             if badm.any():
                 k = int(np.argmax(np.where(badm, r, 0)))
-                self.viol(c, "bound", sv, f"bin {k} (navg={int(ing.navg[k])}): residual power {res[sv][k]!r} exceeds the output's own spectrum Gyy={ing.S00[k]!r} "
+                self.viol(c, "bound", sv, f"bin {k} (navg={int(ing.navg[k])}): residual power {float(res[sv][k])!r} exceeds the output's own spectrum Gyy={float(ing.S00[k])!r} "
                           f"(ratio {res[sv][k] / ing.S00[k]:.6g}, cond(T)={ing.cond[k]:.3g})", {"bin": k, "observed": float(res[sv][k]), "Gyy": float(ing.S00[k])})
             # (0) equals the least-squares minimum S00 - S^H T^-1 S of the same spectra (what "optimal" means; Miso.normal_eq_minimises)
             if self.cmp_power(c, "optimal", sv, res[sv], ing.rref, ing.B, g,
@@ -466,7 +465,7 @@ class Checker:
                 badm = g & ~(pw <= tol)
                 if badm.any():
                     k = int(np.argmax(np.where(badm, r, 0)))
-                    self.viol(c, "exact_combination", sv, f"bin {k}: y = sum c_j x_j exactly but residual ASD {asd[k]!r} = {asd[k] / np.sqrt(inge.S00[k]):.3g}*sqrt(Gyy) "
+                    self.viol(c, "exact_combination", sv, f"bin {k}: y = sum c_j x_j exactly but residual ASD {float(asd[k])!r} = {asd[k] / np.sqrt(inge.S00[k]):.3g}*sqrt(Gyy) "
                               f"(allowed {np.sqrt(tol[k] / inge.S00[k]):.3g}*sqrt(Gyy), cond(T)={inge.cond[k]:.3g})",
                               {"bin": k, "coeffs": c["coeffs"], "observed": float(asd[k]), "Gyy": float(inge.S00[k])})
             c["_S00"] = ing.S00
@@ -577,7 +576,7 @@ def edge_stream(ck: Checker, rng) -> None:
                 P.nontrivial.add(("edge", nm))
             if badm.any():
                 k = int(np.where(badm)[0][0])
-                ck.viol(c, "edge", "numeric", f"{nm}: all-zero input must leave the output spectrum unchanged, bin {k}: {a[k] ** 2!r} vs Gyy {Gyy[k]!r}", {"edge": nm, "bin": k})
+                ck.viol(c, "edge", "numeric", f"{nm}: all-zero input must leave the output spectrum unchanged, bin {k}: {float(a[k] ** 2)!r} vs Gyy {float(Gyy[k])!r}", {"edge": nm, "bin": k})
         if nm == "duplicate_inputs":
             f1, a1 = call("numeric", [x], y, 1.0, c["kw"])
             # same span as the single input: Miso.solvers_agree / remix_invariant need no invertibility; pinv solves to ~1e-12 relative (cond threshold),
@@ -590,7 +589,7 @@ def edge_stream(ck: Checker, rng) -> None:
             ck.ratio("edge_duplicate", float(np.max(np.where(ok, d / np.where(ok, 1e-6 * B, 1.0), 0.0))) if ok.any() else 0.0)
             if badm.any():
                 k = int(np.where(badm)[0][0])
-                ck.viol(c, "edge", "numeric", f"{nm}: duplicated input channel changes the residual, bin {k}: {a[k] ** 2!r} vs single-input {a1[k] ** 2!r} (Gyy {Gyy[k]!r})",
+                ck.viol(c, "edge", "numeric", f"{nm}: duplicated input channel changes the residual, bin {k}: {float(a[k] ** 2)!r} vs single-input {float(a1[k] ** 2)!r} (Gyy {float(Gyy[k])!r})",
                         {"edge": nm, "bin": k})
     # tiny records (sizes 1, 2, 3): no claim (navg <= q or degenerate); only that any exception is a documented ValueError
     for n_small in (1, 2, 3):
